@@ -10,7 +10,7 @@ PROPS = {
         exhaustive=True,
         rule=("bounded-exhaustive: every string of length <= L (quick 6, thorough 8) over {LF, CR, 'a', the two bytes "
               "of a 2-byte UTF-8 rune} x every chunking into reads (2^(n-1)) x read-buffer sizes {1,2,3,5,8,4096} x reader "
-              "behaviours {plain, a zero-byte read inserted, last chunk returned together with io.EOF}, partitioned over the "
+              "behaviours {plain, a zero-byte read inserted, last chunk returned together with io.EOF, the source ends and the same reader then reads the same bytes again (what the file stream does after a truncation)}, partitioned over the "
               "runs; plus one sampled long stream (up to 200 KiB, lines longer than the buffer) per run under the seeded "
               "scheduler with PRNG chunking. A case is non-trivial when the stream frames into >= 2 lines and is delivered "
               "in >= 2 reads; cases are distinct by construction (enumeration) — distinct_nontrivial sums them over the "
@@ -48,16 +48,16 @@ PROPS = {
         quick=dict(runs=20000),
         thorough=dict(runs=600000),
         rule=("each run = one metric (kind x value type from 8 combinations, 0-3 keys) + one generated history of 5-40 operations "
-              "{GetDatum, Set/Inc/Dec/Observe with explicit or zero timestamp, RemoveDatum, ExpireDatum, wrong-arity calls, RemoveOldestDatum, "
-              "clock advance} over a universe of 6 tuples; after every operation the metric is read back through EmitLabelSets (emitter goroutine "
+              "{GetDatum, Set/Inc/Dec/Observe with explicit or zero timestamp, RemoveDatum, ExpireDatum, wrong-arity calls, RemoveOldestDatum, 2-3 tasks looking the same tuple up at once under the seeded scheduler, "
+              "clock advance} over a universe of 6-8 tuples; expiry marks of 0-5 minutes; after every operation the metric is read back through EmitLabelSets (emitter goroutine "
               "under the scheduler, read lock held), FindLabelValueOrNil and json.Marshal and compared with an insertion-ordered list model. "
               "Non-trivial: >= 2 tuples created and at least one live tuple deleted; distinct = distinct (kind, type, arity, operation history)."),
         assumptions=[
             "the timestamp of a datum that was created but never updated is unspecified and not compared",
-            "the tuple universe is small (6 tuples per arity) but includes tuples that differ only in where a hyphen or backslash sits relative to a label boundary; the general injectivity statement over arbitrary strings stays with C08",
-            "single client: the concurrent behaviour of the same API is C11's subject",
+            "the tuple universe is small (6-8 tuples per arity) but includes tuples that differ only in where a hyphen (leading, trailing, alone) or backslash sits relative to a label boundary; the general injectivity statement over arbitrary strings stays with C08",
+            "one client task issues the history; the only concurrent step is the simultaneous lookup of one tuple by 2-3 tasks (all must get one datum) — the concurrent behaviour of the API at large is C11's subject",
         ],
-        expect_probes=["create", "delete_live", "delete_absent", "expire_absent", "wrong_arity", "remove_oldest", "update_with_zero_time"],
+        expect_probes=["create", "delete_live", "delete_absent", "expire_absent", "wrong_arity", "remove_oldest", "update_with_zero_time", "concurrent_lookup", "concurrent_create"],
         real=["metrics.Metric", "datum.Int/Float/String/Buckets", "EmitLabelSets goroutine", "Go time (fake clock)"],
         stub=[],
     ),
@@ -138,14 +138,14 @@ PROPS = {
         quick=dict(runs=4000),
         thorough=dict(runs=120000),
         rule=("each run = a real program directory with up to three .mtail files, a dot-file, a notes.txt, *.mtail.bak / *.mtail.txt names, a "
-              "subdirectory holding a .mtail file and optionally a directory *named* d.mtail, and a history of 1-8 actions {write valid, write broken, "
+              "subdirectory holding a .mtail file and optionally a directory *named* d.mtail, an eligible name with two dots (a.v2.mtail), and a history of 1-8 actions {write valid, write broken (a syntax error, or — in the half of the runs where a metric of another program occupies a name — source that compiles but is refused at registration), "
               "restore, remove, put the removed file back byte-identical, rename (to eligible and ineligible names), touch, reload only}, each followed by LoadAllPrograms — one time in three "
               "while a feeder streams lines. After each reload one line is fed at quiescence: exactly the (file, version) counters of the model's "
               "running set move by one, and prog_loads/unloads/load_errors equal the events. With lines flowing, programs running before and after "
               "the reload must count every line exactly once. Non-trivial: the directory changed; distinct = distinct (history, schedule signature)."),
         assumptions=["every version of a file counts into its own label of one metric declared identically by all versions, so counts survive reloads",
                      "symlinks and unreadable files are not generated"],
-        expect_probes=["edit_valid", "edit_broken", "restore", "remove", "put_back_identical", "rename", "rename_to_ineligible", "touch", "reload_while_lines_flow", "directory_named_like_program"],
+        expect_probes=["edit_valid", "edit_broken", "restore", "remove", "put_back_identical", "rename", "rename_to_ineligible", "touch", "reload_while_lines_flow", "directory_named_like_program", "edit_refused_at_registration"],
         real=["runtime.Runtime (LoadAllPrograms, LoadProgram, CompileAndRun, UnloadProgram, fan-out)", "vm.VM", "compiler", "kernel filesystem", "prog_* expvars"],
         stub=[],
     ),
@@ -172,13 +172,13 @@ PROPS = {
         quick=dict(runs=3000),
         thorough=dict(runs=100000),
         rule=("each run = an observed program (3 variants: scalar + dimensioned + gauge, hidden metric, runtime-error maker) loaded first and never "
-              "touched, 4-33 lines, and 1-6 loader operations on up to three other program files drawn from 9 kinds (same name+kind, same name with "
-              "float type, same name with other keys, same-name gauge, kind conflict, broken, runtime-error maker, hidden same name, hidden variable of another kind) — add, replace, "
-              "remove, re-add — half of them while the lines flow. Oracle: the observed program's series in the real Prometheus exposition equal "
+              "touched, 4-33 lines, and 1-6 loader operations on up to three other program files drawn from 13 kinds (same name+kind, same name with "
+              "float type, same name with other keys, same-name gauge, kind conflict, broken, runtime-error maker, hidden same name, hidden variable of another kind, two programs that expire the label tuples the observed program also holds under the same metric name, a counter/gauge pair on a name the observed program does not use) — add, replace, "
+              "remove, re-add — half of them while the lines flow; one time in three two simulated minutes pass and Store.Gc runs (it must not fail). Oracle: the observed program's series in the real Prometheus exposition equal "
               "those of a solo reference run on the same lines (second runtime in the same bubble); the scrape as a whole keeps working; valid "
               "non-conflicting programs are never refused; no datum is shared between programs. Non-trivial: a load overlapped line processing."),
         assumptions=["OmitProgLabel is not used (same-named metrics then collide by construction)", "timestamps are not compared (values only)"],
-        expect_probes=["load_overlapped_lines", "other_same-name-same-kind", "other_same-name-float", "other_same-name-other-keys", "other_kind-conflict", "other_broken", "other_runtime-errors", "other_hidden-same-name", "other_hidden-other-kind", "other_gauge-same-name"],
+        expect_probes=["load_overlapped_lines", "other_same-name-same-kind", "other_same-name-float", "other_same-name-other-keys", "other_kind-conflict", "other_broken", "other_runtime-errors", "other_hidden-same-name", "other_hidden-other-kind", "other_gauge-same-name", "other_expiring-by-first", "other_expiring-total", "other_extra-counter", "other_extra-gauge", "gc_pass"],
         real=["runtime.Runtime", "metrics.Store", "vm.VM (one goroutine per program)", "exporter.Exporter (Collect, Write)", "prometheus.Registry.Gather + expfmt"],
         stub=[],
     ),
@@ -240,12 +240,12 @@ PROPS = {
         level="exploration",
         quick=dict(runs=20000),
         thorough=dict(runs=600000),
-        rule=("each run = a program with 1-3 strptime layouts from a family of six Go reference layouts (two of them reading the same strings as "
-              "year-month-day and year-day-month; one year-less syslog layout; zones; fractions), settime, plain timestamp() and a rule where strptime "
+        rule=("each run = a program with 1-3 strptime layouts from a family of seven Go reference layouts (two of them reading the same strings as "
+              "year-month-day and year-day-month; a year-less syslog layout with and without a zone offset; zones; fractions), settime, plain timestamp() and a rule where strptime "
               "comes after an update; an override location from {none, UTC, +05:00, -09:30}; the current-year option on/off; and 3-16 lines with values "
               "valid, invalid, generated for another layout, or repeated from earlier lines, with the simulated clock advanced between lines (ms, days, "
               "to one second before/at/after New Year). After every line the gauge holding timestamp(), the timestamp of every datum updated later on "
-              "the line and the runtime-error count are compared with a model built on time.Parse/ParseInLocation and the simulated clock. "
+              "the line (a counter, and a text metric and a float gauge that are re-assigned the value they already hold) and the runtime-error count are compared with a model built on time.Parse/ParseInLocation and the simulated clock. "
               "Non-trivial: a value was repeated or the clock jumped; distinct = distinct (configuration, line history)."),
         assumptions=["datum timestamps are compared only for instants representable as int64 nanoseconds since 1970 (years 1678-2261): a year-less layout without the current-year option yields year 0, which a datum cannot hold (timestamp() itself is still compared)",
                      "the whole scenario runs on the controller goroutine (a VM is single-threaded); the schedule dimension is empty and stated as such"],
@@ -259,7 +259,7 @@ PROPS = {
         thorough=dict(runs=600000),
         rule=("each run = a program assembled from 3-8 of 17 state-stressing rules (strptime under two layouts reading the same strings differently, "
               "syslog layout, constant strptime, strptime followed by a failing conversion or by stop on the same line, settime, timestamp(), strtol and division that fail on some inputs, stop, a rule after stop, del, del after, "
-              "else/otherwise, capture reuse into a text metric), a history of 0-12 lines (one in three an exact repeat of an earlier line) with clock "
+              "else/otherwise, capture reuse into a text metric; one program in three ends in an else branch whose last statement — the program's last instruction — is stop or a failing del-after), a history of 0-12 lines (one in three an exact repeat of an earlier line) with clock "
               "advances and jumps in between, and a final line L. Twin oracle: the VM that processed the history and a freshly compiled copy loaded with the "
               "same metric contents both process L at the same simulated instant; all metrics (tuples, values, timestamps, expiry), the runtime-error "
               "count and the error text must agree. Non-trivial: the history contains a strptime, a runtime error or a stop."),
